@@ -179,6 +179,62 @@ def run(ctx: Ctx):
     factory_binding(ctx)
     history_rules(ctx)
     factory_single_warmup(ctx)
+    ownership_rules(ctx)
+
+
+def ownership_rules(ctx: Ctx):
+    """C20.g who may change the state of the stateful helpers, and how their configuration is stored.
+    (1) A numeric setting is stored as given: `self.beta = beta`, or a default substituted for `None` only.  `beta or 0.8` /
+        `beta if beta else 0.8` also replace an explicit 0.0 -- the `mean` baseline IS ExponentialBaseline(beta=0.0).
+    (2) WarmupBaseline.alpha is written by the constructor (0) and by epoch_callback only: lifecycle hooks that run more than
+        once (setup runs on every fit / validate / test and after load_from_checkpoint) must not reset the schedule.
+    (3) RewardScaler.update is called by RewardScaler.__call__ only (once per scaled batch): a second caller counts every
+        value twice (the mean survives, the sample standard deviation does not)."""
+    mod = ctx.repo.module_by_path(BL)
+    n_set = 0
+    for cnode in [n for n in ast.walk(mod.tree) if isinstance(n, ast.ClassDef)]:
+        for f in [n for n in cnode.body if isinstance(n, ast.FunctionDef) and n.name == "__init__"]:
+            params = {a.arg for a in f.args.args}
+            for st in ast.walk(f):
+                if isinstance(st, ast.Assign) and len(st.targets) == 1 and isinstance(st.targets[0], ast.Attribute) and isinstance(st.targets[0].value, ast.Name) and st.targets[0].value.id == "self":
+                    v = st.value
+                    names = {x.id for x in ast.walk(v) if isinstance(x, ast.Name)} & params
+                    if not names:
+                        continue
+                    n_set += 1
+                    falsy = None
+                    if isinstance(v, ast.BoolOp) and isinstance(v.op, ast.Or) and isinstance(v.values[0], ast.Name) and v.values[0].id in params:
+                        falsy = v
+                    if isinstance(v, ast.IfExp) and isinstance(v.test, ast.Name) and v.test.id in params:
+                        falsy = v
+                    if isinstance(v, ast.IfExp) and isinstance(v.test, ast.UnaryOp) and isinstance(v.test.op, ast.Not) and isinstance(v.test.operand, ast.Name) and v.test.operand.id in params:
+                        falsy = v
+                    if falsy is not None:
+                        ctx.ob("C20.g", f"{cnode.name}.__init__:self.{st.targets[0].attr}:stored-as-given", False, f"{BL}:{st.lineno}",
+                               f"`self.{st.targets[0].attr} = {ast.unparse(v)[:50]}` replaces every falsy value, an explicit 0 / 0.0 included, by the default",
+                               construct=f"{cnode.name}.__init__:falsy-default:{st.targets[0].attr}")
+    ctx.ob("C20.g", "baselines:settings-stored-as-given", True, BL, f"{n_set} constructor assignments from parameters, none through a truthiness test")
+    wb = ctx.repo.get_class(BL, "WarmupBaseline")
+    writers = sorted({m.name for m in wb.methods.values() for st in ast.walk(m.node)
+                      if isinstance(st, (ast.Assign, ast.AugAssign)) and any(isinstance(t, ast.Attribute) and t.attr == "alpha" and isinstance(t.value, ast.Name) and t.value.id == "self"
+                                                                            for t in (st.targets if isinstance(st, ast.Assign) else [st.target]))})
+    okw = set(writers) == {"__init__", "epoch_callback"}
+    ctx.ob("C20.g", "WarmupBaseline.alpha:writers", okw, wb.methods["__init__"].loc,
+           f"self.alpha is assigned in {writers}" + ("" if okw else " -- a write outside the constructor and epoch_callback moves the warm-up weight off its schedule"),
+           construct="WarmupBaseline.alpha:writers")
+    callers = []
+    for mi in sorted(ctx.repo.modules.values(), key=lambda m: m.relpath):
+        if not mi.relpath.startswith("rl4co/"):
+            continue
+        for cnode in ast.walk(mi.tree):
+            if isinstance(cnode, ast.Call) and isinstance(cnode.func, ast.Attribute) and cnode.func.attr == "update" and "scaler" in ast.unparse(cnode.func.value).lower():
+                callers.append(f"{mi.relpath}:{cnode.lineno}")
+    rs = ctx.repo.get_class(UT, "RewardScaler")
+    own = [c for c in ast.walk(rs.methods["__call__"].node) if isinstance(c, ast.Call) and isinstance(c.func, ast.Attribute) and c.func.attr == "update" and isinstance(c.func.value, ast.Name) and c.func.value.id == "self"]
+    ctx.ob("C20.g", "RewardScaler.update:only-called-by-__call__", not callers and len(own) == 1, rs.methods["__call__"].loc,
+           f"self.update(...) inside __call__: {len(own)}; calls of <scaler>.update from elsewhere: {callers or 'none'}" +
+           ("" if not callers else " -- every value is observed twice: count and M2 double, the sample standard deviation is no longer that of the values seen"),
+           construct="RewardScaler.update:callers")
 
 
 def factory_single_warmup(ctx: Ctx):
